@@ -79,6 +79,11 @@ class DefaultList(Generic[T]):
     def __str__(self) -> str:
         return str(self._list)
 
+    def __eq__(self, other: object) -> bool:
+        if not isinstance(other, DefaultList):
+            return NotImplemented
+        return self._list == other._list
+
 
 class Function:
     """
@@ -177,6 +182,11 @@ class Function:
             raise ValueError("The preimage of 0 is infinite.")
         return (k for k, v in enumerate(self._value) if v == value)
 
+    def __eq__(self, other: object) -> bool:
+        if not isinstance(other, Function):
+            return NotImplemented
+        return self._value == other._value
+
     def to_dict(self) -> Dict[int, Optional[int]]:
         """
         Return a dictionary view of the function with only the non-zero value.
@@ -201,6 +211,11 @@ class TableMethod:
         self._processing_queue: Deque[int] = Deque()
         self._current_gap: Tuple[int, int] = (1, 1)
         self._rule_holding_extra_terms: Set[int] = set()
+
+    def __eq__(self, other: object) -> bool:
+        if not isinstance(other, TableMethod):
+            return NotImplemented
+        return self.__dict__ == other.__dict__
 
     @property
     def function(self) -> Dict[int, Optional[int]]:
@@ -632,6 +647,16 @@ class RuleDBForest(RuleDBAbstract):
         self.table_method = TableMethod()
         self._already_empty: Set[int] = set()
         self._rule_cache = tuple(rule_cache)
+
+    def __eq__(self, other: object) -> bool:
+        """Check if all stored information is the same."""
+        if not isinstance(other, RuleDBForest):
+            return NotImplemented
+        return (
+            self.reverse == other.reverse
+            and self.table_method == other.table_method
+            and self._already_empty == other._already_empty
+        )
 
     # Implementation of RuleDBAbstract
 
